@@ -484,7 +484,7 @@ pub fn handle(line: &str) -> String {
     let mut out = trace::take();
     let panicked = out.split(' ').any(|t| t == "panic");
     let detail = match first {
-        Some(e) if errs > 0 => format!(":{}", e.what),
+        Some(e) if errs > 0 => format!(":{}", e.label()),
         _ => String::new(),
     };
     if panicked {
